@@ -42,7 +42,7 @@ def cases(tier, seed):
 def required(tier):
     req = ['fq2.%s.%s' % (op, fm) for op in ('add', 'sub', 'mul') for fm in FORMS]
     req += ['fq2.neg.v', 'fq2.neg.r', 'fq2.new', 'fq2.real', 'fq2.imaginary', 'fq2.is_even', 'fq2.is_zero', 'fq2.is_zero/zero',
-            'fq2.to_slice', 'fq2.from_slice', 'fq2.eq', 'axiom.comm', 'axiom.assoc', 'axiom.distrib', 'axiom.one',
+            'fq2.to_slice', 'fq2.from_slice', 'fq2.from_slice/out-of-range', 'fq2.eq', 'axiom.comm', 'axiom.assoc', 'axiom.distrib', 'axiom.one',
             'sqr.hook', 'sqr.g2double', 'g2.mixed_add', 'sop.2', 'sop.4', 'carry.mul/0', 'carry.mul/1', 'carry.sop4/2', 'mul/exact-cancellation', 'mul/accumulator-boundary', 'sop.2/accumulator-boundary']
     return req
 
@@ -112,6 +112,11 @@ def run(ctx, spec):
             exp.append(('fq2.to_slice', 'bytes ' + f2hex(x), ('into', x), nt(x)))
             lines.append('_ fq2.from_slice %s' % f2hex(x))
             exp.append(('fq2.from_slice', 'ok ' + f2hex(x), ('from_slice', x), nt(x)))
+            # a half that is not below q (q itself, q+1, 2^256-1): not an element of the field, must be refused
+            badv = rng.choice([q, q, q + 1, (1 << 256) - 1, q + x[0] % 997])
+            halves = (h32(badv) + h32(x[0])) if rng.random() < 0.5 else (h32(x[1]) + h32(badv))
+            lines.append('_ fq2.from_slice %s' % halves)
+            exp.append(('fq2.from_slice/out-of-range', 'none', ('from_slice-bad', halves), True))
         elif kind == 'pred':
             if rng.random() < 0.2:
                 x = (0, 0)
